@@ -23,6 +23,11 @@ type chanCore struct {
 
 	hRQ, hSQ uint64 // commutative hashes of the parked receivers / senders
 
+	// a channel made outside any execution (package-level variable): its state starts afresh
+	// in every execution, on first use
+	global bool
+	ep     uint64
+
 	// timers
 	isTimer  bool
 	fired    bool
@@ -38,9 +43,23 @@ type Chan[T any] struct {
 
 var chanSeq int
 
+// synced returns k ready for use in the current execution.
+func (k *chanCore) synced() *chanCore {
+	if k != nil && k.global && S != nil && k.ep != S.epoch {
+		k.ep = S.epoch
+		k.obj = NewObj("chan")
+		k.name = fmt.Sprintf("global-chan#%x", k.obj.ID&0xffff)
+		k.buf, k.closed, k.nsent, k.recvVCs, k.hRQ, k.hSQ = nil, false, 0, nil, 0, 0
+	}
+	return k
+}
+
 func newCore(capacity int, kind string) *chanCore {
 	if S == nil {
-		panic("vsched: channel created outside the scheduler")
+		if kind != "chan" {
+			panic("vsched: timer created outside the scheduler")
+		}
+		return &chanCore{cap: capacity, global: true, name: "global-chan"}
 	}
 	o := NewObj(kind)
 	k := &chanCore{obj: o, cap: capacity}
@@ -91,7 +110,7 @@ func coreOf[T any](c *Chan[T]) *chanCore {
 	if c == nil {
 		return nil
 	}
-	return c.core
+	return c.core.synced()
 }
 
 // Case is one communication clause of a select.
@@ -172,7 +191,7 @@ func (c *Chan[T]) Close() {
 	if c == nil {
 		panic(chanError("close of nil channel"))
 	}
-	k := c.core
+	k := c.core.synced()
 	var perr string
 	ok := Post(&Op{Name: "close " + k.name, Obj: k.obj, Global: true, Exec: func(t *Thread, _ int) {
 		if k.closed {
@@ -220,7 +239,7 @@ func (c *Chan[T]) Len() int {
 	if c == nil {
 		return 0
 	}
-	k := c.core
+	k := c.core.synced()
 	n := 0
 	if !Post(&Op{Name: "len " + k.name, Obj: k.obj, ReadOnly: true, Exec: func(t *Thread, _ int) { n = len(k.buf) }}) {
 		return len(k.buf)
@@ -232,7 +251,7 @@ func (c *Chan[T]) Cap() int {
 	if c == nil {
 		return 0
 	}
-	return c.core.cap
+	return c.core.synced().cap
 }
 
 // RawLen reads the buffer length without a scheduling point (oracle use only).
@@ -240,16 +259,16 @@ func (c *Chan[T]) RawLen() int {
 	if c == nil {
 		return 0
 	}
-	return len(c.core.buf)
+	return len(c.core.synced().buf)
 }
 
 // RawClosed reports whether the channel is closed (oracle use only).
-func (c *Chan[T]) RawClosed() bool { return c != nil && c.core.closed }
+func (c *Chan[T]) RawClosed() bool { return c != nil && c.core.synced().closed }
 
 // CloseFromExec closes c on behalf of t from inside another operation's Exec
 // (context cancellation). Closing an already closed channel is a no-op here.
 func CloseFromExec[T any](t *Thread, c *Chan[T]) {
-	if c == nil || c.core.closed {
+	if c == nil || c.core.synced().closed {
 		return
 	}
 	closeCore(t, c.core)
@@ -260,7 +279,7 @@ func (c *Chan[T]) RawItems() []T {
 	if c == nil {
 		return nil
 	}
-	out := make([]T, 0, len(c.core.buf))
+	out := make([]T, 0, len(c.core.synced().buf))
 	for _, s := range c.core.buf {
 		if s.v == nil {
 			var z T
